@@ -184,3 +184,27 @@ Fixpoint uninit_form (f : form) : bool :=
   end
 with uninit_brs (b : branches) : bool :=
   match b with BrNil => true | BrCons _ p k r => uninit p && uninit_form k && uninit_brs r end.
+
+(* ---------- the discipline for a program ----------
+   A function body is checked against its parameters.  The channels in scope of a top-level
+   process are the declared names (providers of processes, assumed names) that occur free in its
+   body, other than its own providers.  A declaration with several provider names duplicates the
+   process: its type (after mode inference) must be contractable. *)
+Require Import Grits.ModeDefs Grits.Modes Grits.STypes Grits.Subst Grits.Infer.
+
+Definition declared (p : program) : list string :=
+  flat_map (fun pd => map ident (pr_providers pd)) (p_procs p) ++ map ident (p_assumed p).
+Definition fun_scope (fd : fundef) : list string := map ident (fn_params fd).
+Definition proc_scope (p : program) (pd : procdef) : list string :=
+  map ident (filter (fun n => negb (str_mem (ident n) (map ident (pr_providers pd))) && str_mem (ident n) (declared p))
+                    (free_names (pr_body pd))).
+Definition contractable_type (D : tenv) (t : option sty) : Prop :=
+  exists t0 t1, t = Some t0 /\ add_missing D t0 = Ok t1 /\ contr (mode_of t1) = true.
+
+Definition LinearProgram (p : program) : Prop :=
+  (forall fd, In fd (p_funs p) -> LinearNames (fun_scope fd) None (fn_body fd)) /\
+  (forall pd, In pd (p_procs p) -> LinearNames (proc_scope p pd) None (pr_body pd)) /\
+  (forall pd, In pd (p_procs p) -> 1 < length (pr_providers pd) -> contractable_type (p_types p) (pr_type pd)).
+
+Definition uninit_prog (p : program) : bool :=
+  forallb (fun fd => uninit_form (fn_body fd)) (p_funs p) && forallb (fun pd => uninit_form (pr_body pd)) (p_procs p).
